@@ -1477,7 +1477,7 @@ def show_keys(
                 FROM duckdb_constraints
                 WHERE constraint_type = 'PRIMARY KEY'
                   AND database_name = '{current_database}'
-                  AND table_name NOT LIKE '_fs_%'
+                  AND NOT starts_with(table_name, '_fs_')
                 """
         else:
             statement = f"""
@@ -1494,7 +1494,7 @@ def show_keys(
                 FROM duckdb_constraints
                 WHERE constraint_type = '{kind} KEY'
                   AND database_name = '{current_database}'
-                  AND table_name NOT LIKE '_fs_%'
+                  AND NOT starts_with(table_name, '_fs_')
                 """
 
         scope_kind = expression.args.get("scope_kind")
